@@ -114,7 +114,10 @@ def run_scenario(sc, lines, impl):
         await mpc.gather(y if not (ty.startswith('secgrp') or ty == 'secflt') else [])
         await mpc.barrier()
         rec.mark('a')
-        res = await mpc.output(y, receivers=R)
+        if sc.get('othr') is not None:  # explicit threshold= argument (equal to the default: same traffic expected)
+            res = await mpc.output(y, receivers=R, threshold=sc['othr'])
+        else:
+            res = await mpc.output(y, receivers=R)
         rec.mark('b')
         return res, plain
 
@@ -269,6 +272,8 @@ def gen(ctx, rng, k):
             sc['R'] = [r_ for r_ in sc['R'] if r_ < 3] or [0]
         else:
             sc['R'] = sc['R'] % 3
+    if sc['type'] in ('secint', 'secfxp', 'secfld101', 'secfld256', 'list_secint') and rng.random() < 0.4:
+        sc['othr'] = sc['t']   # output(..., threshold=t) given explicitly together with the receiver subset
     return sc
 
 
